@@ -2,8 +2,8 @@
    these definitions of /repo; tools/srcfacts.py regenerates their normal-form digests on every run (coq/Gen/Src_*.v).
    Statements only. *)
 From Coq Require Import List String.
-From ME Require Import Model.SrcExpected Gen.Src_throttle Gen.Src_map Gen.Src_common
-  Proofs.Src_ok_throttle Proofs.Src_ok_map Proofs.Src_ok_common.
+From ME Require Import Model.SrcExpected Gen.Src_throttle Gen.Src_map Gen.Src_common Gen.Src_helpers Gen.Src_event
+  Proofs.Src_ok_throttle Proofs.Src_ok_map Proofs.Src_ok_common Proofs.Src_ok_helpers Proofs.Src_ok_event.
 
 (* more_executors/_impl/throttle.py *)
 Theorem c07_source_throttle : Src_throttle.facts = expected_throttle.
@@ -14,7 +14,15 @@ Proof. exact src_map_ok. Qed.
 (* more_executors/_impl/common.py *)
 Theorem c07_source_common : Src_common.facts = expected_common.
 Proof. exact src_common_ok. Qed.
+(* more_executors/_impl/helpers.py *)
+Theorem c07_source_helpers : Src_helpers.facts = expected_helpers.
+Proof. exact src_helpers_ok. Qed.
+(* more_executors/_impl/event.py *)
+Theorem c07_source_event : Src_event.facts = expected_event.
+Proof. exact src_event_ok. Qed.
 
 Print Assumptions c07_source_throttle.
 Print Assumptions c07_source_map.
 Print Assumptions c07_source_common.
+Print Assumptions c07_source_helpers.
+Print Assumptions c07_source_event.
